@@ -182,3 +182,15 @@ _lv("C18", "GetLogRange for every buffer length 0..1100 and full-int64 offset/li
     "Abstract backing store (only offset/len/cap tracked).")
 _lv("C19", "Every JSON handler of pc_api.go against a recording IProject with symbolic outcomes: right operation once with decoded parameters, 400/207/200 mapping, malformed body or non-numeric path parameter -> 400 without a call, never 5xx.",
     "gin.Context response/body methods stubbed under symgo (real gin test context natively); routing, HTTP, JSON and the client package outside (reduced scope).")
+
+PROPS["C01"] = {
+    "harnesses": [
+        {"pkg": "app", "name": "VerifC01_Gating", "quick": {"d": 0}, "thorough": {"d": 1}, "replay_repeat": 8,
+         "bounds": {"N": 3, "edges": "every subset of {p1->p0,p2->p0,p2->p1} x {completed, completed_successfully, log_ready, started}", "dependency behaviour": "exit 0 / exit 3 / runs until stopped",
+                    "ready line": "printed or not"}},
+        {"pkg": "app", "name": "VerifC01_GatingProbes", "quick": {"d": 0}, "thorough": {"d": 1}, "replay_repeat": 2, "validate_strict": False,
+         "bounds": {"N": 3, "edges": "as above with at least one process_healthy edge", "readiness probe": "one check, success or failure, delivered at any instant after the launch"}},
+    ],
+    "stubs": ["Commander: vCmd", "go-health scheduler: harness-driven", "stdout: scripted lines"],
+    "assumptions": ["dependencies are not replicated", "restart policy of dependencies: no"],
+}
